@@ -33,6 +33,8 @@
 //!        the stitched listing is the version's own readable entries followed by the previous version's entries
 //!        after the last of them.  Input {"options": n, "phase": ".."} | {"cut_after_hunks": k}.
 //!        Round 7: files and directories whose names extend the name of a symlink beside them (`-rf ->`, `-rfx`, `-rf.d/`).
+//!  Round 8, `odd_names_roundtrip`: phase "display": `to_string()` / Display of every listed apath is its raw text (C12, C01);
+//!        all comparisons use the raw text.
 
 use std::collections::{BTreeMap, BTreeSet};
 use std::os::unix::fs::symlink;
@@ -781,7 +783,7 @@ fn sorted_paths(root: &Path) -> Vec<String> {
     let mut v: Vec<Apath> = tree_snapshot(root).into_keys().map(|p| Apath::from(p.as_str())).collect();
     v.push(Apath::root());
     v.sort();
-    v.into_iter().map(|a| a.to_string()).collect()
+    v.into_iter().map(String::from).collect() // the raw text of each apath
 }
 
 fn esize(e: &IndexEntry) -> u64 {
@@ -822,7 +824,13 @@ fn odd_names_roundtrip(only: Option<&Value>) -> R {
                 Ok(es) => es,
                 Err(e) => return found(K, input("list"), format!("listing failed: {e}"), "a listing", "a version with unusual file names cannot be listed"),
             };
-            let got: Vec<String> = es.iter().map(|e| e.apath.to_string()).collect();
+            // round 8: an apath prints as its raw text, control characters included (sets keyed on `to_string()` are looked
+            // up with raw slices by the restore guard); everything below compares the RAW text
+            if let Some(bad) = es.iter().find(|e| e.apath.to_string() != AsRef::<str>::as_ref(&e.apath) || format!("{}", e.apath) != String::from(e.apath.clone())) {
+                return found(K, input("display"), format!("the apath whose text is {:?} prints as {:?}", AsRef::<str>::as_ref(&bad.apath), bad.apath.to_string()), "Display / to_string() of an apath is its raw text",
+                    "the textual form of an apath with control characters differs from the path itself");
+            }
+            let got: Vec<String> = es.iter().map(|e| String::from(e.apath.clone())).collect();
             if got != want0 {
                 let short = |p: &String| if p.len() > 60 { format!("{}.. ({} bytes)", p.chars().take(40).collect::<String>(), p.len()) } else { p.clone() };
                 let missing: Vec<String> = want0.iter().filter(|p| !got.contains(p)).map(short).collect();
@@ -838,7 +846,7 @@ fn odd_names_roundtrip(only: Option<&Value>) -> R {
             if !lerrs.is_empty() {
                 return found(K, input("list"), format!("listing reported: {}", lerrs[0]), "no error", "listing a fault-free version reported errors");
             }
-            if let Some(bad) = es.iter().find(|e| esize(e) != sizes0.get(&e.apath.to_string()).copied().unwrap_or(0)) {
+            if let Some(bad) = es.iter().find(|e| esize(e) != sizes0.get(AsRef::<str>::as_ref(&e.apath)).copied().unwrap_or(0)) {
                 return found(K, input("list"), format!("{:?} is recorded with {} bytes", bad.apath.to_string(), esize(bad)), "the size of the source file", "an entry with an unusual name records the wrong size");
             }
             if let Some(d) = restore_mismatch(&archive, BandSelectionPolicy::LatestClosed, &tmp.path().join("dest"), &tree0).await? {
@@ -894,7 +902,7 @@ fn odd_names_roundtrip(only: Option<&Value>) -> R {
                 Ok(es) => es,
                 Err(e) => return found(K, input, format!("listing the interrupted version failed: {e}"), "a listing", "an interrupted version cannot be listed"),
             };
-            let got: Vec<(String, u64)> = es.iter().map(|e| (e.apath.to_string(), esize(e))).collect();
+            let got: Vec<(String, u64)> = es.iter().map(|e| (String::from(e.apath.clone()), esize(e))).collect();
             if got != want {
                 let first = got.iter().zip(want.iter()).position(|(a, b)| a != b).unwrap_or(got.len().min(want.len()));
                 return found(K, input, format!("{} entries; first deviation at position {first}: listed {:?}, expected {:?}", got.len(), got.get(first), want.get(first)),
